@@ -1439,3 +1439,50 @@ MUTANTS += [
     ("C19", _UD + "scipy/exponential.py", r'"scale": 1 / rate', '"scale": rate'),
     ("C19", _UD + "scipy/beta.py", r'"a": alpha,\n                "b": beta,', '"a": beta,\n                "b": alpha,'),
 ]
+
+# ---- backup clauses of C12 attached to C11 / C03 / C01 (contracts/c12_backup_clauses.py)
+_BS = "scenarios/base_scenario.py"
+MUTANTS += [
+    # the database export starts while the handle of the description block is still open
+    ("C11", "algos/optimization_problem.py", r"^        self\.database\.to_hdf\(file_path, append=True, hdf_node_path=hdf_node_path\)", "            self.database.to_hdf(file_path, append=True, hdf_node_path=hdf_node_path)"),
+    ("C11", "algos/database.py", r"            self, file_path, append, hdf_node_path=hdf_node_path\n        \)\n\n    @classmethod", "            self, file_path, not append, hdf_node_path=hdf_node_path\n        )\n\n    @classmethod"),
+    # the file handle of to_file is never closed (no context manager)
+    ("C11", "algos/_hdf_database.py", r'        with h5py\.File\(file_path, "a" if append else "w"\) as h5file:\n            if hdf_node_path:\n                h5file = h5file\.require_group\(hdf_node_path\)\n            design_vars_grp = h5file\.require_group\("x"\)',
+     '        h5file = h5py.File(file_path, "a" if append else "w")\n        if True:\n            if hdf_node_path:\n                h5file = h5file.require_group(hdf_node_path)\n            design_vars_grp = h5file.require_group("x")'),
+    # no full-export fall-back when the node is empty (first backup export)
+    ("C11", "algos/_hdf_database.py", r"if append and len\(design_vars_grp\) != 0:", "if append:"),
+    ("C11", _BS, r"        self\.save_optimization_history\(self\._opt_hist_backup_path, append=True\)", "        self.save_optimization_history(self._opt_hist_backup_path, file_format=self.formulation.optimization_problem.HistoryFileFormat.GGOBI, append=True)"),
+    # listener protocol
+    ("C03", "algos/database.py", r"        self\.__hdf_database\.add_pending_array\(hashed_input_value\)\n", ""),
+    ("C03", "algos/database.py", r"        stored_outputs = self\.get\(hashed_input_value\)\n", "        if self.__store_listeners:\n            self.notify_store_listeners(x_vect)\n        stored_outputs = self.get(hashed_input_value)\n"),
+    ("C03", "algos/evaluation_problem.py", r"        if at_each_function_call:\n            self\.database\.add_store_listener\(listener\)", "        if at_each_function_call:\n            self.database.add_new_iter_listener(listener)"),
+    ("C03", "algos/evaluation_problem.py", r"        if at_each_iteration:\n            self\.database\.add_new_iter_listener\(listener\)", "        if at_each_function_call:\n            self.database.add_new_iter_listener(listener)"),
+    ("C03", _BS, r"            at_each_iteration=at_each_iteration,\n            at_each_function_call=at_each_function_call,\n        \)\n\n        if plot:", "            at_each_iteration=at_each_function_call,\n            at_each_function_call=at_each_iteration,\n        )\n\n        if plot:"),
+    ("C03", _BS, r"            if erase and load:", "            if erase or load:"),
+    ("C03", _BS, r"                self\._opt_hist_backup_path\.unlink\(\)\n", "                pass\n"),
+    ("C03", _BS, r"                    opt_pb\.evaluation_counter\.current = max_iteration", "                    opt_pb.evaluation_counter.current = 0"),
+    ("C01", _BS, r"                    opt_pb\.evaluation_counter\.current = max_iteration", "                    opt_pb.evaluation_counter.current = max_iteration - 1"),
+    ("C01", _BS, r"                opt_pb\.database\.update_from_hdf\(self\._opt_hist_backup_path\)\n", "                pass\n"),
+    ("C03", _BS, r"            elif load:\n", "            elif not load:\n"),
+    ("C03", _BS, r"        opt_pb\.add_listener\(\n            self\._execute_backup_callback,", "        opt_pb.add_listener(\n            self._execute_plot_callback,"),
+]
+
+MUTANTS += [
+    # ---- C17 (c17_consistency): ConsistencyConstraint._jac_to_wrap (gradient of a scalar coupling)
+    ("C17", "core/mdo_functions/consistency_constraint.py", r"self\.__output_couplings, ones_like\(x_vect\)", "self.__output_couplings, 2 * ones_like(x_vect)"),
+    ("C17", "core/mdo_functions/consistency_constraint.py", r"self\.__output_couplings, ones_like\(x_vect\)", "self.__formulation.get_optim_variable_names(), ones_like(x_vect)"),
+]
+
+MUTANTS += [
+    # ---- C17 (c17_build): DisciplinaryOpt / DesignSpace.filter
+    ("C17", "formulations/disciplinary_opt.py", r"MDOChain\(disciplines\) if len\(disciplines\) > 1 else disciplines\[0\],", "MDOChain(disciplines) if len(disciplines) > 2 else disciplines[0],"),
+    ("C17", "formulations/disciplinary_opt.py", r"MDOChain\(disciplines\) if len\(disciplines\) > 1 else disciplines\[0\],", "disciplines[0],"),
+    ("C17", "formulations/disciplinary_opt.py", r"        self\._filter_design_space\(\)\n", "        pass\n"),
+    ("C17", "formulations/disciplinary_opt.py", r"set\(all_input_names\)\.intersection\(design_space\)", "set(all_input_names)"),
+    ("C17", "formulations/disciplinary_opt.py", r"get_all_inputs\(self\.get_top_level_disciplines\(\)\)", "get_all_inputs(self.disciplines)"),
+    ("C17", "formulations/disciplinary_opt.py", r"        design_space\.filter\(kept_variable_names\)", "        design_space.filter(kept_variable_names, copy=True)"),
+    ("C17", "algos/design_space.py", r"        for name in self\.variable_names:\n            if name not in keep_variables:", "        for name in self.variable_names:\n            if name in keep_variables:"),
+    ("C17", "algos/design_space.py", r"        for name in self\.variable_names:\n            if name not in keep_variables:", "        for name in self.variable_names[1:]:\n            if name not in keep_variables:"),
+    ("C17", "algos/design_space.py", r"        for name in keep_variables:\n            self\.__check_known_variable\(name\)\n", ""),
+    ("C17", "algos/design_space.py", r"            self\.__check_known_variable\(name\)\n        return design_space", "            self.__check_known_variable(name)\n        return None"),
+]
